@@ -114,10 +114,16 @@ def simple_enum_map(F, match, enum_path):
     return out, problems
 
 
-def head(n):
+def head(n, unwrap_ok=False):
     """abstract an arm body to its head: ('variant', path, args) | ('call', callee, node) |
-    ('lit', v) | ('macro', name, snippet) | ('path', name) | ('other', sexp)"""
+    ('lit', v) | ('macro', name, snippet) | ('path', name) | ('other', sexp); with unwrap_ok the head of `Ok(e)` /
+    `Some(e)` is the head of `e` (a table moved into a fallible helper)"""
     n = strip(n)
+    if unwrap_ok:
+        while n.get("k") == "Call" and n.get("dk") == "Variant" and norm(n.get("resolved") or n.get("callee") or "").endswith(("Result::Ok", "Option::Some")) and len(n.get("args", [])) == 1:
+            n = strip(n["args"][0])
+            while n.get("k") == "Block" and n.get("e") is not None and not n.get("stmts"):
+                n = strip(n["e"])
     k = n.get("k")
     while k in ("Ret", "Try") or (k == "Block" and n.get("e") is not None and not n.get("stmts")):
         n = strip(n["e"]) if n.get("e") else n
